@@ -34,7 +34,7 @@ impl Channel {
 }
 
 impl CommitmentInfo2 {
-//@fn vls-core/src/tx/tx.rs :: impl CommitmentInfo2 :: new mode=trusted
+//@fn vls-core/src/tx/tx.rs :: impl CommitmentInfo2 :: new props=C04,C01
     ensures info2_built(r, is_counterparty_broadcaster, to_countersigner_value_sat, to_broadcaster_value_sat,
         offered_htlcs@, received_htlcs@, feerate_per_kw),
 //@end
